@@ -12,6 +12,7 @@ package main
 
 import (
 	"fmt"
+	"go/constant"
 	"go/token"
 	"go/types"
 	"strings"
@@ -605,7 +606,11 @@ func ruleGRDelect(w *World, r *Report) {
 					return ok && !isConstBool(retVal(rt, 0), !emptyAnswer)
 				}
 				for _, e := range live {
-					if f, wt := (pathQuery{fn: g, target: saysEmpty}).find(ipos{e.from.Succs[e.succ], -1}); f {
+					// what the literal can answer from here on, with its boolean variables followed along each path (a "found"
+					// flag that is set on this edge and returned after the scan is true on every such path)
+					mayTrue, mayFalse := boolAnswersFrom(g, e.from.Succs[e.succ], e.from)
+					if (emptyAnswer && mayTrue) || (!emptyAnswer && mayFalse) {
+						_, wt := (pathQuery{fn: g, target: saysEmpty}).find(ipos{e.from.Succs[e.succ], -1})
 						bad, wit = true, wt
 					}
 				}
@@ -655,6 +660,118 @@ func ruleGRDelect(w *World, r *Report) {
 	if n == 0 {
 		r.Und("GRD-elect", "anchor:Vacuum:election-loop", w.Pos(fi.Decl.Pos()), "no not-deleted test precedes the empty-graph outcome: election loop not recognised")
 	}
+}
+
+// boolAnswersFrom: which boolean answers a one-result function g can return on the paths that start by entering block
+// start from pred. Boolean phis are evaluated along each path (a constant, or the current value of another phi), a branch
+// on a value that is known follows only the consistent edge; anything else is unknown (both answers possible).
+func boolAnswersFrom(g *ssa.Function, start, pred *ssa.BasicBlock) (mayTrue, mayFalse bool) {
+	var phis []*ssa.Phi
+	idx := map[*ssa.Phi]int{}
+	for _, b := range g.Blocks {
+		for _, in := range b.Instrs {
+			if p, ok := in.(*ssa.Phi); ok && isBoolType(p.Type()) {
+				idx[p] = len(phis)
+				phis = append(phis, p)
+			}
+		}
+	}
+	const unk, tt, ff = '?', 'T', 'F'
+	valOf := func(v ssa.Value, env []byte) byte {
+		switch x := v.(type) {
+		case *ssa.Const:
+			if x.Value != nil && x.Value.Kind() == constant.Bool {
+				if constant.BoolVal(x.Value) {
+					return tt
+				}
+				return ff
+			}
+		case *ssa.Phi:
+			if i, ok := idx[x]; ok {
+				return env[i]
+			}
+		case *ssa.UnOp:
+			if x.Op == token.NOT {
+				switch valOfNot := x.X; v2 := valOfNot.(type) {
+				case *ssa.Phi:
+					if i, ok := idx[v2]; ok {
+						switch env[i] {
+						case tt:
+							return ff
+						case ff:
+							return tt
+						}
+					}
+				}
+			}
+		}
+		return unk
+	}
+	type st struct {
+		b, from *ssa.BasicBlock
+		env     string
+	}
+	seen := map[st]bool{}
+	var walk func(b, from *ssa.BasicBlock, env []byte)
+	walk = func(b, from *ssa.BasicBlock, env []byte) {
+		// enter b from `from`: its phis take the operand of that edge (simultaneously)
+		next := append([]byte{}, env...)
+		for _, in := range b.Instrs {
+			p, ok := in.(*ssa.Phi)
+			if !ok {
+				break
+			}
+			i, isB := idx[p]
+			if !isB {
+				continue
+			}
+			for pi, pb := range b.Preds {
+				if pb == from && pi < len(p.Edges) {
+					next[i] = valOf(p.Edges[pi], env)
+				}
+			}
+		}
+		k := st{b, from, string(next)}
+		if seen[k] || len(seen) > 20000 {
+			return
+		}
+		seen[k] = true
+		switch term := b.Instrs[len(b.Instrs)-1].(type) {
+		case *ssa.Return:
+			if len(term.Results) != 1 {
+				mayTrue, mayFalse = true, true
+				return
+			}
+			switch valOf(retVal(term, 0), next) {
+			case tt:
+				mayTrue = true
+			case ff:
+				mayFalse = true
+			default:
+				mayTrue, mayFalse = true, true
+			}
+		case *ssa.If:
+			switch valOf(term.Cond, next) {
+			case tt:
+				walk(b.Succs[0], b, next)
+			case ff:
+				walk(b.Succs[1], b, next)
+			default:
+				walk(b.Succs[0], b, next)
+				walk(b.Succs[1], b, next)
+			}
+		default:
+			for _, s := range b.Succs {
+				walk(s, b, next)
+			}
+		}
+	}
+	env := make([]byte, len(phis))
+	for i := range env {
+		env[i] = unk
+	}
+	walk(start, pred, env)
+	return
 }
 
 // ruleGRDsmallgraph: which insertion path a batch takes must depend on the graph that exists now.
